@@ -241,7 +241,10 @@ def r10_6_setup_paths(repo: Repo, rep: Report):
     arms = [i for i in loop.body if isinstance(i, ast.If) and "output.error" in src(i.test)]
     ok = len(arms) == 1 and any(isinstance(c, ast.Call) and call_name(c) == "warn_code" and c.args and src(c.args[0]) == "INTERNAL_ERROR" and "opcode not in [EVM.REVERT, EVM.INVALID]" in {g for g in guard_set(m, c)} for c in ast.walk(arms[0]))
     rep.check("R10.6", ok, m, arms[0] if arms else loop, "error arm: warn_code(INTERNAL_ERROR, ..) unless the opcode is REVERT / INVALID", "a setUp path that ended in an error other than a plain revert must be reported")
-    rep.check("R10.6", bool(arms) and bool(arms[0].orelse) and "setup_exs_no_error.append" in src(arms[0].orelse[0] if len(arms[0].orelse) == 1 else ast.Module(body=arms[0].orelse, type_ignores=[])), m, arms[0] if arms else loop, "else arm: the path becomes a candidate setup state", "an error-free setUp path must be kept as a candidate")
+    apps = [c for c in body_walk(loop) if isinstance(c, ast.Call) and src(c.func).endswith("setup_exs_no_error.append")]
+    in_error_arm = bool(arms) and any(c in list(ast.walk(b)) for c in apps for b in arms[0].body)
+    ok = len(apps) == 1 and not in_error_arm and not [g for g in guard_set(m, apps[0]) - guard_set(m, loop) if "output.error" not in g and "err" not in g.split()]
+    rep.check("R10.6", ok, m, apps[0] if apps else loop, "every path without an error becomes a candidate setup state", "an error-free setUp path must be kept as a candidate (unconditionally)")
 
 
 def r10_5_message_identity(repo: Repo, rep: Report):
